@@ -737,6 +737,111 @@ func runC02(r *Run) {
 	// of x/evm/statedb is part of this property too — the same rule code as C05 R4
 	r.Rule("R13", "see C05 R10 (imported): what a mid-transaction StateDB.Commit (the flush every precompile starts with) wrote is rewritten by the next Commit even when a reverted frame removed the address from the journal's dirty set — otherwise a payment made in a frame that calls a precompile and reverts stays with the payee while the payer's balance is restored by minting")
 	r.Import("R13/C05.", []string{"R10"}, runC05)
+	r.Rule("R14", "PATH.per-token-precompile-moves-are-mirrored: the ERC-20 / WERC-20 precompiles (instantiated per token pair, not through the static registry) move bank coins of the pair's denomination with a bank MsgSend or an authz dispatch — and for the pair of the native coin (WISLM) that denomination is the one the StateDB caches. In every function of these packages that receives the StateDB and performs such a move, every success exit after the move passes a StateDB.SubBalance and a StateDB.AddBalance (the mirror, as werc20.Deposit has it); without it a journal-dirty sender is written back with its stale balance at Commit and the transferred amount is minted")
+	{
+		n := 0
+		for _, fn := range P.Funcs {
+			pk := fnPkgPath(fn)
+			if !(strings.HasSuffix(pk, "/precompiles/erc20") || strings.HasSuffix(pk, "/precompiles/werc20")) || fn.Synthetic != "" || isTestSupport(P, fn) {
+				continue
+			}
+			hasDB := false
+			for _, p := range fn.Params {
+				if namedName(p.Type()) == "StateDB" {
+					hasDB = true
+				}
+			}
+			if !hasDB {
+				continue
+			}
+			var moves []ssa.CallInstruction
+			eachCall(fn, func(ci CallInfo) {
+				if isCosmosEffect(ci) && (ci.Name == "Send" || ci.Name == "MultiSend" || ci.Name == "DispatchActions" || strings.HasPrefix(ci.Name, "SendCoins")) {
+					moves = append(moves, ci.Instr)
+				}
+			})
+			if len(moves) == 0 {
+				continue
+			}
+			n++
+			isDB := func(name string) func(ssa.Instruction) bool {
+				isCall := func(in ssa.Instruction) bool {
+					c, ok := in.(ssa.CallInstruction)
+					if !ok {
+						return false
+					}
+					ci := callInfo(c)
+					return ci.Name == name && ci.Recv == "StateDB"
+				}
+				return func(in ssa.Instruction) bool {
+					if isCall(in) {
+						return true
+					}
+					// a branch on the pair's denomination one side of which holds the mirror: only the native coin's pair needs it
+					iff, ok := in.(*ssa.If)
+					if !ok || !backSlice(iff.Cond).HasField("TokenPair", "Denom") {
+						return false
+					}
+					for _, succ := range in.Block().Succs {
+						for _, b := range fn.Blocks {
+							if !dominates(succ, b) {
+								continue
+							}
+							for _, x := range b.Instrs {
+								if isCall(x) {
+									return true
+								}
+							}
+						}
+					}
+					return false
+				}
+			}
+			var wit []ssa.Instruction
+			for _, mv := range moves {
+				for _, name := range []string{"SubBalance", "AddBalance"} {
+					if w := (PathQuery{Fn: fn, Start: mv, Block: isDB(name), Target: func(x ssa.Instruction) bool {
+						ret, ok := x.(*ssa.Return)
+						return ok && classifyExit(ret) != ExitFailure
+					}}).Search(); w != nil && wit == nil {
+						wit = w
+					}
+				}
+			}
+			r.Check(wit == nil, "R14", fnID(fn)+"#native-coin-move-mirrored", P.Pos(fnPos(fn)), "every success exit after the bank move passes SubBalance and AddBalance on the StateDB",
+				"a per-token precompile method moves bank coins of the pair's denomination without mirroring the move in the StateDB: for the native coin's pair (WISLM) a journal-dirty sender — one wei attached to the call is enough — is reset to its pre-transfer balance at Commit, so the recipient's credit is minted", P.witness(wit)...)
+		}
+		r.Floor("R14", "per-token precompile methods that move bank coins", n, 1)
+		// WISLM.deposit(): the EVM has already moved the attached value caller -> precompile in the StateDB; deposit hands it
+		// back (the wrapped coin IS the native coin), so both halves are there on every success exit, for the value itself
+		if dep, ok := P.FnOK("(precompiles/werc20.Precompile).Deposit"); ok {
+			half := func(name, who string) []ssa.Instruction {
+				return PathQuery{Fn: dep, Block: func(in ssa.Instruction) bool {
+					c, ok := in.(ssa.CallInstruction)
+					if !ok {
+						return false
+					}
+					ci := callInfo(c)
+					if ci.Name != name || ci.Recv != "StateDB" || len(callArgs(c)) < 2 {
+						return false
+					}
+					a := callArgs(c)
+					isM := func(v ssa.Value, m string) bool {
+						return backSlice(v).HasCall(func(x CallInfo) bool { return x.Name == m && x.Recv == "Contract" })
+					}
+					return isM(a[len(a)-2], who) && isM(a[len(a)-1], "Value")
+				}, Target: func(x ssa.Instruction) bool {
+					ret, ok := x.(*ssa.Return)
+					return ok && classifyExit(ret) != ExitFailure
+				}}.Search()
+			}
+			w := append(half("AddBalance", "Caller"), half("SubBalance", "Address")...)
+			r.Check(len(w) == 0, "R14", fnID(dep)+"#attached-value-handed-back", P.Pos(fnPos(dep)), "AddBalance(contract.Caller(), contract.Value()) and SubBalance(contract.Address(), contract.Value()) on every success exit",
+				"WISLM.deposit() does not hand the attached value back in the StateDB on every success path (credit of the caller and debit of the precompile address, both of contract.Value()): the value stays with — or is taken twice from — the blocked precompile address and Commit mints or burns the difference", P.witness(w)...)
+		} else {
+			r.Bad("R14", "anchor/werc20.Deposit", "", "(precompiles/werc20.Precompile).Deposit not found")
+		}
+	}
 	r.Rule("R8", "see C05 R4 (imported): every write to revertible StateDB state is journalled, every entry's Revert restores what was written after it was appended, from recorded values")
 	r.Import("R8/C05.", []string{"R4"}, runC05)
 
